@@ -29,7 +29,7 @@ def run(ctx):
         "requests to the same redirect target are issued one after the other (the Location cached on the shared target under simultaneous requests is checked by C06)",
     ]
     base.run_prop(ctx, "C13", ctx.pick(4, 1),
-                  "one case per finished pipeline run TLC enumerated (quick: the slice selected by the seed plus all bad-code and self-redirect layouts; thorough: the full product); non-trivial = answered by a redirect route, or a redirect passed over",
+                  "one case per finished pipeline run TLC enumerated (quick: the slice selected by the seed plus all bad-code and self-redirect layouts; thorough: the full product); non-trivial = settled on a redirect route (answered 3xx), a redirect passed over, or an ordinary route left by a redirect= value that is no 3xx code",
                   _pred, _corrupt, "location-path")
 
 
